@@ -922,7 +922,7 @@ func SeedCorpus(f *testing.F, d *Decoder) {
 		}
 		return b
 	})
-	for seed := 1; seed <= 12; seed++ {
+	for seed := 1; seed <= 6; seed++ {
 		valid := gen.Example(seed)
 		f.Add(valid)
 		if d.Shape != nil {
